@@ -5,16 +5,15 @@ package main
 // ops (grammar in ds.go):
 //   ds.raw  <auto|man> <r> <nc> <samples>   -> the aggregate chunks DownsampleRaw / downsampleRawLoop produce
 //   ds.read <r> <nc> <samples>              -> the five aggregates read back through the querier
-//   (ds.raw with strictly increasing timestamps of which some are < 0: oracle asks only for Σ count = #non-NaN;
-//    class negative-timestamp-samples-lost, a registered finding)
 //   ds.cs   <list>|<list>|…                 -> query.chunkSeriesIterator over arbitrary chunk lists
 //                                              (malformed stream: overlapping / unordered chunks; no oracle)
 //
-// oracle (independent of the model; domain: timestamps ≥ 0 strictly increasing, r > 0, nc ≥ 1):
+// oracle (independent of the model; domain: timestamps strictly increasing — negative ones included since
+// the repair of F36 —, r > 0, nc ≥ 1):
 //   * the four aggregates of a chunk carry the same, strictly increasing timestamps; the chunk's
 //     [MinTime, MaxTime] is [first, last] of them; consecutive chunks do not overlap
 //   * every output point (ts, count, sum, min, max): the raw non-NaN samples S of the window
-//     [ts - ts%r, ts - ts%r + r - 1] are non-empty, count = |S|, sum = ΣS, min = min S, max = max S,
+//     [lo, lo + r - 1] with lo = ts - floormod(ts, r) are non-empty, count = |S|, sum = ΣS, min = min S, max = max S,
 //     and ts is not before the last sample of S; windows strictly increase
 //   * every raw non-NaN sample's window has an output point; Σ count = #S_all, Σ sum = Σ S_all
 //   * ds.read: each aggregate read through the querier equals the concatenation of the decoded
@@ -40,26 +39,10 @@ func execC36(c *hlib.Ctx, tok []string) string {
 	}
 	switch tok[0] {
 	case "ds.raw":
-		if negativeOnly(cs.ts, cs.r1) && cs.nc1 >= 1 {
-			// strictly increasing timestamps, some of them before 1970: only the total count is asked for
+		if negativeOnly(cs.ts, cs.r1) {
 			c.Count("oracle:negative-timestamps")
-			want, got := 0.0, 0.0
-			for _, v := range cs.vs {
-				if !math.IsNaN(v) {
-					want++
-				}
-			}
-			for _, ch := range cs.l1 {
-				for _, p := range ch.lists[0] {
-					got += p.v
-				}
-			}
-			if got != want {
-				c.Violation("negative-timestamp-samples-lost", fmt.Sprintf("series with timestamps < 0: Σcount=%v but %v non-NaN raw samples", got, want))
-			}
-			return out
 		}
-		if !inDomain(cs.ts, cs.r1) || cs.nc1 < 1 {
+		if !increasing(cs.ts, cs.r1) || cs.nc1 < 1 {
 			c.Count("oracle:skipped-out-of-domain")
 			return out
 		}
@@ -67,7 +50,7 @@ func execC36(c *hlib.Ctx, tok []string) string {
 		checkChunkShape(c, cs.l1, &lists)
 		checkWindows(c, cs.ts, cs.vs, cs.r1, lists)
 	case "ds.read":
-		if !inDomain(cs.ts, cs.r1) || cs.nc1 < 1 {
+		if !increasing(cs.ts, cs.r1) || cs.nc1 < 1 {
 			c.Count("oracle:skipped-out-of-domain")
 			return out
 		}
@@ -93,6 +76,20 @@ func execC36(c *hlib.Ctx, tok []string) string {
 		checkWindows(c, cs.ts, cs.vs, cs.r1, lists)
 	}
 	return out
+}
+
+// increasing: the domain of the C36 oracle — strictly increasing timestamps (negative ones
+// included since the repair of F36) and a positive resolution.
+func increasing(ts []int64, r int64) bool {
+	if r <= 0 {
+		return false
+	}
+	for i := range ts {
+		if i > 0 && ts[i-1] >= ts[i] {
+			return false
+		}
+	}
+	return true
 }
 
 // negativeOnly: strictly increasing timestamps, resolution > 0, and at least one timestamp < 0.
@@ -164,13 +161,13 @@ func checkWindows(c *hlib.Ctx, ts []int64, vs []float64, r int64, lists [4][]pt)
 		}
 	}
 	j := 0
-	prevHi := int64(-1)
+	prevHi := int64(math.MinInt64)
 	sumCount, sumSum := 0.0, 0.0
 	for i := 0; i < n; i++ {
 		t := lists[0][i].t
-		lo := t - t%r
+		lo := t - ((t%r)+r)%r // floored: the window [lo, lo+r-1] that contains t, also for t < 0
 		hi := lo + r - 1
-		if lo <= prevHi {
+		if i > 0 && lo <= prevHi {
 			c.Violation("windows-not-increasing", fmt.Sprintf("output %d at %d is not in a later window than output %d", i, t, i-1))
 			return
 		}
